@@ -2145,7 +2145,11 @@ int cgi_read_conn(cgns_conn *conn)
 
      /* get donor name */
     if (cgi_read_string(conn->id, conn->name, &string_data)) return CG_ERROR;
-    if (cgi_check_strlen(string_data)) return CG_ERROR;
+     /* a file is read here: only the length matters for the copy below */
+    if (strlen(string_data) > 32) {
+        cgi_error("Name exceeds 32 characters limit: %s",string_data);
+        return CG_ERROR;
+    }
     strcpy(conn->donor, string_data);
     CGNS_FREE(string_data);
 
@@ -11005,6 +11009,10 @@ int cgi_zone_no(cgns_base *base, char *zonename, int *zone_no)
 
 int cgi_check_strlen(char const *string)
 {
+    if (string[0] == '\0') {
+        cgi_error("Empty string where a name of 1 to 32 characters is needed");
+        return CG_ERROR;
+    }
     if (strlen(string) > 32) {
         cgi_error("Name exceeds 32 characters limit: %s",string);
         return CG_ERROR;
@@ -11017,6 +11025,10 @@ int cgi_check_strlen_x2(char const *string)
     int n1,n2;
     size_t p;
 
+    if (string[0] == '\0') {
+        cgi_error("Empty string where a name is needed");
+        return CG_ERROR;
+    }
     if (strlen(string) > 65) {
         cgi_error("Name exceeds 65 characters limit: %s",string);
         return CG_ERROR;
